@@ -24,14 +24,17 @@ type atomSet struct {
 }
 
 type resource struct {
-	Name     string
-	atoms    func(b *Built) atomSet
-	variants func(b *Built, thorough bool) []variant
-	rows     func(ref *lx.Ref, v variant) []*row
-	atom     func(*Atom, *row) bool
-	entities func(sel []*row, v variant) []string
-	list     func(ctx context.Context, c ledgercontroller.Controller, qb query.Builder, v variant) ([]string, error)
-	count    func(ctx context.Context, c ledgercontroller.Controller, qb query.Builder, v variant) (int, error)
+	Name string
+	// whose metadata the resource's metadata filters look at: "tx", "acc", or "" (the
+	// resource has neither metadata nor points in time)
+	metaOwner string
+	atoms     func(b *Built) atomSet
+	variants  func(b *Built, thorough bool) []variant
+	rows      func(ref *lx.Ref, v variant) []*row
+	atom      func(*Atom, *row) bool
+	entities  func(sel []*row, v variant) []string
+	list      func(ctx context.Context, c ledgercontroller.Controller, qb query.Builder, v variant) ([]string, error)
+	count     func(ctx context.Context, c ledgercontroller.Controller, qb query.Builder, v variant) (int, error)
 }
 
 func pitOf(v variant) *libtime.Time {
@@ -161,12 +164,13 @@ func txIDs(txs []ledger.Transaction) []string {
 }
 
 var resTransactions = &resource{
-	Name:     "transactions",
-	atoms:    txAtoms,
-	variants: pitVariants,
-	rows:     txRows,
-	atom:     txAtom,
-	entities: func(sel []*row, _ variant) []string { return sorted(keysOf(sel)) },
+	Name:      "transactions",
+	metaOwner: "tx",
+	atoms:     txAtoms,
+	variants:  pitVariants,
+	rows:      txRows,
+	atom:      txAtom,
+	entities:  func(sel []*row, _ variant) []string { return sorted(keysOf(sel)) },
 	list: func(ctx context.Context, c ledgercontroller.Controller, qb query.Builder, v variant) ([]string, error) {
 		txs, err := follow(ctx, common.PaginatedQuery[any](common.InitialPaginatedQuery[any]{PageSize: bigPage, Options: rq(qb, v)}), c.ListTransactions)
 		if err != nil {
@@ -237,12 +241,13 @@ func accAtoms(b *Built) atomSet {
 }
 
 var resAccounts = &resource{
-	Name:     "accounts",
-	atoms:    accAtoms,
-	variants: pitVariants,
-	rows:     accRows,
-	atom:     accAtom,
-	entities: func(sel []*row, _ variant) []string { return sorted(keysOf(sel)) },
+	Name:      "accounts",
+	metaOwner: "acc",
+	atoms:     accAtoms,
+	variants:  pitVariants,
+	rows:      accRows,
+	atom:      accAtom,
+	entities:  func(sel []*row, _ variant) []string { return sorted(keysOf(sel)) },
 	list: func(ctx context.Context, c ledgercontroller.Controller, qb query.Builder, v variant) ([]string, error) {
 		accs, err := follow(ctx, common.PaginatedQuery[any](common.InitialPaginatedQuery[any]{PageSize: bigPage, Options: rq(qb, v)}), c.ListAccounts)
 		if err != nil {
@@ -346,12 +351,13 @@ func volOfAPI(x ledger.VolumesWithBalanceByAssetByAccount) volEntity {
 }
 
 var resVolumes = &resource{
-	Name:     "volumes",
-	atoms:    volAtoms,
-	variants: volVariants,
-	rows:     volRows,
-	atom:     volAtom,
-	entities: func(sel []*row, v variant) []string { return sorted(volStrings(volEntities(sel, v.Group))) },
+	Name:      "volumes",
+	metaOwner: "acc",
+	atoms:     volAtoms,
+	variants:  volVariants,
+	rows:      volRows,
+	atom:      volAtom,
+	entities:  func(sel []*row, v variant) []string { return sorted(volStrings(volEntities(sel, v.Group))) },
 	list: func(ctx context.Context, c ledgercontroller.Controller, qb query.Builder, v variant) ([]string, error) {
 		vols, err := follow(ctx, common.PaginatedQuery[ledger.GetVolumesOptions](common.InitialPaginatedQuery[ledger.GetVolumesOptions]{PageSize: bigPage, Options: volQuery(qb, v)}), c.GetVolumesWithBalances)
 		if err != nil {
@@ -410,12 +416,13 @@ func aggVariants(b *Built, thorough bool) []variant {
 }
 
 var resAggregated = &resource{
-	Name:     "aggregated",
-	atoms:    aggAtoms,
-	variants: aggVariants,
-	rows:     volRows,
-	atom:     aggAtom,
-	entities: func(sel []*row, _ variant) []string { return aggEntities(sel) },
+	Name:      "aggregated",
+	metaOwner: "acc",
+	atoms:     aggAtoms,
+	variants:  aggVariants,
+	rows:      volRows,
+	atom:      aggAtom,
+	entities:  func(sel []*row, _ variant) []string { return aggEntities(sel) },
 	list: func(ctx context.Context, c ledgercontroller.Controller, qb query.Builder, v variant) ([]string, error) {
 		ab, err := c.GetAggregatedBalances(ctx, common.ResourceQuery[ledger.GetAggregatedVolumesOptions]{PIT: pitOf(v), Builder: qb,
 			Opts: ledger.GetAggregatedVolumesOptions{UseInsertionDate: v.Ins}})
